@@ -448,8 +448,11 @@ func (wf *Workflow[I, O]) compile(ctx context.Context, options *graphCompileOpti
 				n.dependencySetter(wb.fromNodeKey, branchDependency)
 			}
 		}
-		_ = wf.g.addBranch(wb.fromNodeKey, wb.GraphBranch, true)
+		if err := wf.g.addBranch(wb.fromNodeKey, wb.GraphBranch, true); err != nil {
+			return nil, err
+		}
 	}
+	wf.workflowBranches = nil // added; compiling again must not add them a second time
 
 	for _, n := range wf.workflowNodes {
 		for _, addInput := range n.addInputs {
@@ -462,6 +465,9 @@ func (wf *Workflow[I, O]) compile(ctx context.Context, options *graphCompileOpti
 
 	for _, n := range wf.workflowNodes {
 		if len(n.staticValues) > 0 {
+			if wf.g.compiled {
+				return nil, ErrGraphCompiled
+			}
 			value := make(map[string]any, len(n.staticValues))
 			var paths []FieldPath
 			for path, v := range n.staticValues {
@@ -522,6 +528,7 @@ func (wf *Workflow[I, O]) compile(ctx context.Context, options *graphCompileOpti
 			} else {
 				wf.g.handlerPreNode[n.key] = append([]handlerPair{pair}, wf.g.handlerPreNode[n.key]...)
 			}
+			n.staticValues = make(map[string]any) // installed; compiling again must not install them a second time
 		}
 	}
 
